@@ -110,6 +110,8 @@ pub enum OracleD {
     Swb(Pubkey),
     Fixed,
     Staked { oracle: Pubkey, lst_mint: Pubkey, sol_pool: Pubkey },
+    /// Kamino pass-through bank: Pyth price account + venue reserve (exchange rate)
+    Kamino { oracle: Pubkey, reserve: Pubkey },
 }
 impl OracleD {
     /// accounts that follow the bank in the risk-engine remaining accounts
@@ -118,6 +120,7 @@ impl OracleD {
             OracleD::None | OracleD::Fixed => vec![],
             OracleD::Pyth(k) | OracleD::Swb(k) => vec![*k],
             OracleD::Staked { oracle, lst_mint, sol_pool } => vec![*oracle, *lst_mint, *sol_pool],
+            OracleD::Kamino { oracle, reserve } => vec![*oracle, *reserve],
         }
     }
 }
@@ -129,6 +132,8 @@ pub struct BankD {
     pub mint: usize,
     pub oracle: OracleD,
     pub k: BankKeys,
+    /// venue-side accounts of a Kamino pass-through bank
+    pub kamino: Option<ix::KaminoKeys>,
 }
 pub struct UserD {
     pub kp: Keypair,
@@ -173,6 +178,8 @@ pub struct World {
     pub swb: std::collections::HashMap<Pubkey, SwbPx>,
     /// images of the writable accounts of the last observed transaction before it executed
     pub last_pre: Shadow,
+    /// keep venue reserves refreshed to the current slot whenever oracles are refreshed
+    pub venue_autorefresh: bool,
 }
 
 pub fn wi(x: f64) -> WrappedI80F48 {
@@ -221,6 +228,7 @@ impl World {
             pyth: Default::default(),
             swb: Default::default(),
             last_pre: Shadow::new(),
+            venue_autorefresh: true,
         };
         w.chain.set_time(start_time.max(w.chain.now()));
         let p = w.chain.payer.pubkey();
@@ -298,6 +306,33 @@ impl World {
         for (k, mut p) in ks {
             p.last_update = now;
             self.set_swb(&k, p);
+        }
+        if self.venue_autorefresh {
+            self.refresh_reserves();
+        }
+    }
+    /// What a `refresh_reserve` of the venue does: stamp every Kamino reserve with the current slot.
+    pub fn refresh_reserves(&mut self) {
+        let slot = self.chain.clock.slot;
+        let ks: Vec<Pubkey> = self.banks.iter().filter_map(|b| b.kamino.map(|k| k.reserve)).collect();
+        for k in ks {
+            self.edit_reserve(&k, |r| {
+                r.slot = slot;
+                r.stale = 0;
+            });
+        }
+    }
+    pub fn reserve(&self, k: &Pubkey) -> Option<kamino_mocks::state::MinimalReserve> {
+        self.shadow.get(k).and_then(|a| crate::venue::read_reserve(&a.data))
+    }
+    pub fn obligation(&self, k: &Pubkey) -> Option<kamino_mocks::state::MinimalObligation> {
+        self.shadow.get(k).and_then(|a| crate::venue::read_obligation(&a.data))
+    }
+    pub fn edit_reserve<F: FnOnce(&mut kamino_mocks::state::MinimalReserve)>(&mut self, k: &Pubkey, f: F) {
+        if let Some(mut r) = self.reserve(k) {
+            f(&mut r);
+            let lamports = self.shadow.get(k).map(|a| a.lamports).unwrap_or(100_000_000);
+            self.plant(k, Account { lamports, data: crate::venue::reserve_bytes(&r), owner: crate::venue::KAMINO, executable: false, rent_epoch: 0 });
         }
     }
 
@@ -477,7 +512,7 @@ impl World {
         }
         let k = BankKeys::of(b);
         self.refresh(&[b, k.lv, k.iv, k.fv, gk]).await;
-        self.banks.push(BankD { key: b, group, mint, oracle, k });
+        self.banks.push(BankD { key: b, group, mint, oracle, k, kamino: None });
         Ok(self.banks.len() - 1)
     }
 
@@ -513,8 +548,91 @@ impl World {
         }
         let k = BankKeys::of(b);
         self.refresh(&[b, k.lv, k.iv, k.fv, gk]).await;
-        self.banks.push(BankD { key: b, group, mint: mint_idx, oracle: OracleD::Staked { oracle: sol_oracle, lst_mint, sol_pool }, k });
+        self.banks.push(BankD { key: b, group, mint: mint_idx, oracle: OracleD::Staked { oracle: sol_oracle, lst_mint, sol_pool }, k, kamino: None });
         Ok(self.banks.len() - 1)
+    }
+
+    /// Kamino pass-through bank over a planted reserve / obligation served by the stateful venue
+    /// stand-in (`venue::kamino_entry`). `liq`/`col` are the reserve's starting supplies (exchange
+    /// rate liq/col), backed by real tokens in the reserve's supply vault.
+    #[allow(clippy::too_many_arguments)]
+    pub async fn add_bank_kamino(&mut self, group: usize, mint: usize, cfg: marginfi::state::kamino::KaminoConfigCompact, px: PythPx, liq: u64, col: u64, seed: u64) -> Result<usize, TxOut> {
+        use kamino_mocks::state::{MinimalObligation, MinimalReserve};
+        let oracle = self.next_kp().pubkey();
+        self.set_pyth(&oracle, px);
+        let market = self.next_kp().pubkey();
+        let reserve = self.next_kp().pubkey();
+        let (lma, _) = crate::venue::lending_market_authority(&market);
+        let supply = self.new_token_account(mint, lma, liq).await;
+        let (mk, dec, prog) = (self.mints[mint].key, self.mints[mint].decimals, self.mints[mint].program());
+        let gk = self.groups[group].key;
+        let admin = clone_kp(&self.groups[group].admin);
+        let p = self.chain.payer.pubkey();
+        let bank = ix::bank_pda(&gk, &mk, seed);
+        let k = BankKeys::of(bank);
+        let obligation = crate::venue::kamino_obligation_key(&k.lva, &market);
+        let kk = ix::KaminoKeys { market, lma, reserve, obligation, supply, col_mint: self.next_kp().pubkey(), col_supply: self.next_kp().pubkey() };
+        let mut r: MinimalReserve = bytemuck::Zeroable::zeroed();
+        r.version = 1;
+        r.slot = self.chain.clock.slot;
+        r.price_status = 63;
+        r.lending_market = market;
+        r.mint_pubkey = mk;
+        r.supply_vault = supply;
+        r.available_amount = liq;
+        r.mint_decimals = dec as u64;
+        r.token_program = prog;
+        r.collateral_mint_pubkey = kk.col_mint;
+        r.mint_total_supply = col;
+        r.collateral_supply_vault = kk.col_supply;
+        self.plant(&reserve, Account { lamports: 100_000_000, data: crate::venue::reserve_bytes(&r), owner: crate::venue::KAMINO, executable: false, rent_epoch: 0 });
+        let mut cfg = cfg;
+        cfg.oracle = oracle;
+        cfg.oracle_setup = OracleSetup::KaminoPythPush;
+        let (ixn, b) = ix::add_bank_kamino(gk, admin.pubkey(), p, mk, seed, reserve, obligation, prog, cfg, vec![ix::ro(oracle), ix::ro(reserve)]);
+        let out = self.raw_send(&[ixn], &[&admin]).await;
+        if !out.ok() {
+            return Err(out);
+        }
+        // what `kamino_init_obligation` leaves behind at the venue: an obligation owned by the
+        // bank's vault authority whose first (and only) deposit slot is the bank's reserve
+        let mut o: MinimalObligation = bytemuck::Zeroable::zeroed();
+        o.tag = 1;
+        o.last_update_slot = self.chain.clock.slot;
+        o.lending_market = market;
+        o.owner = k.lva;
+        o.deposits[0].deposit_reserve = reserve;
+        self.plant(&obligation, Account { lamports: 100_000_000, data: crate::venue::obligation_bytes(&o), owner: crate::venue::KAMINO, executable: false, rent_epoch: 0 });
+        self.refresh(&[b, k.lv, k.iv, k.fv, gk, supply]).await;
+        self.banks.push(BankD { key: b, group, mint, oracle: OracleD::Kamino { oracle, reserve }, k, kamino: Some(kk) });
+        Ok(self.banks.len() - 1)
+    }
+    /// deposit through whatever instruction the bank's kind requires
+    pub fn ix_deposit_any(&self, a: usize, b: usize, signer: Pubkey, ta: Pubkey, amount: u64) -> Instruction {
+        if self.banks[b].kamino.is_some() {
+            self.ix_kamino_deposit(a, b, signer, ta, amount)
+        } else {
+            self.ix_deposit(a, b, signer, ta, amount, None)
+        }
+    }
+    pub fn ix_withdraw_any(&self, a: usize, b: usize, signer: Pubkey, ta: Pubkey, amount: u64, all: Option<bool>) -> Instruction {
+        if self.banks[b].kamino.is_some() {
+            self.ix_kamino_withdraw(a, b, signer, ta, amount, all)
+        } else {
+            self.ix_withdraw(a, b, signer, ta, amount, all)
+        }
+    }
+    pub fn ix_kamino_deposit(&self, a: usize, b: usize, signer: Pubkey, ta: Pubkey, amount: u64) -> Instruction {
+        let bd = &self.banks[b];
+        let m = self.mint_of_bank(b);
+        ix::kamino_deposit(self.groups[bd.group].key, self.accts[a].key, signer, bd.key, ta, m.key, m.program(), bd.kamino.as_ref().expect("kamino bank"), amount)
+    }
+    pub fn ix_kamino_withdraw(&self, a: usize, b: usize, signer: Pubkey, ta: Pubkey, amount: u64, all: Option<bool>) -> Instruction {
+        let bd = &self.banks[b];
+        let m = self.mint_of_bank(b);
+        let closing = all == Some(true);
+        let rem = self.risk_metas(a, None, if closing { Some(b) } else { None });
+        ix::kamino_withdraw(self.groups[bd.group].key, self.accts[a].key, signer, bd.key, ta, m.key, m.program(), bd.kamino.as_ref().expect("kamino bank"), amount, all, rem)
     }
 
     // ------------------------------------------------------------ views
@@ -693,12 +811,14 @@ impl World {
     /// Send a transaction and feed the monitors: every marginfi instruction of a committed
     /// transaction is evaluated on its own pre/post state (also inside brackets), then the commit.
     pub async fn exec(&mut self, m: &mut Mon, ixs: &[Instruction], signers: &[&Keypair]) -> TxOut {
+        crate::refm::set_slot(self.chain.clock.slot);
         let out = self.chain.send(ixs, signers).await;
         self.observe(m, ixs, &out).await;
         out
     }
     /// Simulate (state preserving) and feed the per-instruction monitors if it would succeed.
     pub async fn probe(&mut self, m: &mut Mon, ixs: &[Instruction], signers: &[&Keypair]) -> TxOut {
+        crate::refm::set_slot(self.chain.clock.slot);
         let out = self.chain.simulate(ixs, signers).await;
         if out.ok() {
             // evaluate on a scratch copy of the shadow
